@@ -17,6 +17,30 @@ def rapid(name, test, quick, thorough, **kw):
     return d
 
 CHECKS = {
+    "C14": {
+        "level": "exploration",
+        "phases": [
+            rapid("prop", "TestProp",
+                  {"checks": 72, "shards": 12, "timeout": 400, "shrinktime": "30s"},
+                  {"checks": 480, "shards": 16, "timeout": 2400, "shrinktime": "60s"}),
+        ],
+    },
+    "C05": {
+        "level": "exploration",
+        "phases": [
+            rapid("prop", "TestProp",
+                  {"checks": 2000, "shards": 12, "timeout": 400},
+                  {"checks": 40000, "shards": 16, "timeout": 2400}),
+        ],
+    },
+    "C02": {
+        "level": "exploration",
+        "phases": [
+            rapid("prop", "TestProp",
+                  {"checks": 2000, "shards": 12, "timeout": 400},
+                  {"checks": 40000, "shards": 16, "timeout": 2400}),
+        ],
+    },
     "C20": {
         "level": "exploration",
         "phases": [
